@@ -15,6 +15,20 @@ from typing import Any, Dict, List, Optional
 ALWAYS_NULL_TYPES = {"00000073-0000-1000-8000-0026BB765291"}
 
 
+def from_pyhap(ex: BaseException) -> bool:
+    """True if the exception was raised by / passed through the implementation under check (a
+    frame inside the pyhap package): then it is an observation about pyhap, not a harness bug."""
+    import os
+
+    tb = ex.__traceback__
+    while tb is not None:
+        fn = tb.tb_frame.f_code.co_filename.replace(os.sep, "/")
+        if "/pyhap/" in fn:
+            return True
+        tb = tb.tb_next
+    return False
+
+
 class GetterBoom(Exception):
     pass
 
